@@ -86,6 +86,11 @@ def run(R, env):
             for s_ in subterms(op["args"][-1]):
                 if s_[0] == "upd" and s_[2] == ("expected_native_unstaked",) and s_[3][0] == "agg" and s_[3][2] == "Some":
                     U = s_[3][3][0][2]
+            if U is None:
+                for b_, d_ in shared.write_value_alternatives(prog, op, "batches") or []:
+                    x_ = d_.get(("expected_native_unstaked",))
+                    if x_ is not None and x_[0] == "agg" and x_[2] == "Some":
+                        U = x_[3][0][2]
     R.ob("C04.R2", "SubmitBatch:U-identified", U is not None, "no `expected_native_unstaked := Some(U)` found", fn=sk)
     if U is not None:
         Ur = resolve_terms(prog, U, env.depth)
